@@ -13,6 +13,18 @@ struct FOp {
 };
 const FOp* fenv_registry(std::size_t* n);
 
+// Broad public-API slice (fenv_api.cpp): environment preservation / independence only, values not judged.
+struct AOp {
+    const char* type; const char* fn; unsigned width, elem; bool is_float;
+    bool fp_dependent_ok;        // result may legitimately depend on the ambient rounding mode / FTZ / DAZ
+    void (*call)(const void* a, const void* b, void* out192);
+};
+extern "C" {
+const AOp* fenv_api_part0(std::size_t*); const AOp* fenv_api_part1(std::size_t*); const AOp* fenv_api_part2(std::size_t*); const AOp* fenv_api_part3(std::size_t*);
+const AOp* fenv_api_part4(std::size_t*); const AOp* fenv_api_part5(std::size_t*); const AOp* fenv_api_part6(std::size_t*); const AOp* fenv_api_part7(std::size_t*);
+const AOp* fenv_api_part8(std::size_t*); const AOp* fenv_api_part9(std::size_t*);
+}
+
 // Reference (fenv_ref.cpp): scalar hardware op / glibc libm under the AMBIENT mode.
 enum RefFn { RF_ADD, RF_SUB, RF_MUL, RF_DIV, RF_INC, RF_DEC, RF_NEG, RF_ID, RF_SQRT,
              RF_CEIL, RF_FLOOR, RF_TRUNC, RF_ROUND, RF_NEARBYINT, RF_RINT };
